@@ -2,7 +2,7 @@
    What is proved are bounds on what is MATERIALISED, in terms of bytes actually present;
    allocator behaviour is measured (DESIGN.md 11). *)
 From NF Require Import Base Nom Types Layout Value V9 Ipfix Parser.
-From NF Require Import RunFacts MiscFacts VarFacts.
+From NF Require Import RunFacts MiscFacts VarFacts CostFacts.
 From Coq Require Import Lia.
 Open Scope list_scope.
 
@@ -62,3 +62,44 @@ Proof.
   destruct H4 as [->|[err ->]]; cbn [length] in Hl; lia.
 Qed.
 Print Assumptions C15_elements_linear.
+
+(* Outside the zero-length class the output is bounded by the INPUT alone: when no field of the
+   governing template has length 0, every value decoded consumed at least one byte of the set, so
+   a data flowset / data set of n bytes materialises at most n values (whatever the template's
+   size, whatever the counts the headers announce); the values plus the bytes left over never
+   exceed the bytes given. *)
+Theorem C15_v9_values_le_bytes : forall puf fs n i,
+  Forall (fun f => tf_len f <> 0%N) fs ->
+  let (recs, r) := parse_records puf n fs i in (length (List.concat recs) + length r <= length i)%nat.
+Proof. intros puf fs n i H. exact (parse_records_values puf fs H n i). Qed.
+Print Assumptions C15_v9_values_le_bytes.
+
+Theorem C15_ipfix_values_le_bytes : forall puf fs fuel i ents r,
+  Forall (fun f => if_len f <> 0%N) fs ->
+  parse_irecords fuel puf fs i = Ok ents r -> (length ents + length r <= length i)%nat.
+Proof. intros puf fs fuel i ents r H. exact (parse_irecords_values puf fs H fuel i ents r). Qed.
+Print Assumptions C15_ipfix_values_le_bytes.
+
+(* the hypothesis is needed (class K_C15_zero_len_inflation): a template of one 1-byte field and
+   three zero-length string fields turns 2 bytes into 8 values *)
+Theorem C15_zero_len_refuted :
+  exists fs i ents r, parse_irecords 10 true fs i = Ok ents r /\ (length i < length ents)%nat.
+Proof.
+  exists [ {| if_num := 4; if_type := ipfix_from_u16 4; if_len := 1; if_ent := None |};
+           {| if_num := 82; if_type := ipfix_from_u16 82; if_len := 0; if_ent := None |};
+           {| if_num := 82; if_type := ipfix_from_u16 82; if_len := 0; if_ent := None |};
+           {| if_num := 82; if_type := ipfix_from_u16 82; if_len := 0; if_ent := None |} ]%N,
+         [x06; x11].
+  eexists; eexists. split; [vm_compute; reflexivity|cbn; lia].
+Qed.
+Print Assumptions C15_zero_len_refuted.
+
+(* non-vacuity: a template of two fields of non-zero length and 9 bytes: 4 records of 2 values, 1 byte left *)
+Example C15_example :
+  let fs := [ {| if_num := 4; if_type := ipfix_from_u16 4; if_len := 1; if_ent := None |};
+              {| if_num := 4; if_type := ipfix_from_u16 4; if_len := 1; if_ent := None |} ]%N in
+  Forall (fun f => if_len f <> 0%N) fs
+  /\ match parse_irecords 10 true fs [x06; x11; x06; x11; x06; x11; x06; x11; x01] with
+     | Ok ents r => length ents = 8%nat /\ length r = 1%nat
+     | Err _ => False end.
+Proof. split; [repeat constructor; discriminate|vm_compute; split; reflexivity]. Qed.
